@@ -2453,10 +2453,11 @@ package go_clipper2
 //@ func setNewOwner
 //@   props C06 C03
 //@   nosafety
-//@   assumes op != nil && forallp(q, OutPt2, q.next != nil)
-//@   loop 0 invariant [walked-nodes-owned] op.ownerIdx == newIdx && op2 != nil
+//@   assumes op != nil && forallp(q, OutPt2, q.next != nil && q.prev != nil && q.next.prev == q)
+//@   loop 0 invariant [walked-nodes-owned] op.ownerIdx == newIdx && op2 != nil && op2.prev.ownerIdx == newIdx
 //@   loop 0 step [each-node-visited-gets-the-owner] old(op2).ownerIdx == newIdx && op2 == old(op2).next
 //@   ensures [head-owned] op.ownerIdx == newIdx
+//@   ensures [the-whole-ring-is-walked-the-node-before-the-head-is-owned-too] op.prev.ownerIdx == newIdx
 
 //@ func getRealOutRec
 //@   props C04 C02 C03 C01 C05 C08 C09 C10 C17 C19
@@ -2919,3 +2920,16 @@ package go_clipper2
 //@   loop 0.1.0 invariant [edge-sets-are-four-bit-sets] 0 <= j && j <= 4 && 0 <= edgeSet1 && edgeSet1 < 16 && int(edgeSet2) == edgeBits(op2.pt, r.rect) && 0 <= combinedSet && combinedSet < 16 && bitOf(int(combinedSet), 0) == bitOf(int(edgeSet1), 0)*bitOf(int(edgeSet2), 0) && bitOf(int(combinedSet), 1) == bitOf(int(edgeSet1), 1)*bitOf(int(edgeSet2), 1) && bitOf(int(combinedSet), 2) == bitOf(int(edgeSet1), 2)*bitOf(int(edgeSet2), 2) && bitOf(int(combinedSet), 3) == bitOf(int(edgeSet1), 3)*bitOf(int(edgeSet2), 3) && len(r.edges) == 8 && op2 != nil
 //@   loop 0.1.0 step [a-vertex-is-filed-under-an-edge-only-if-it-lies-on-that-edge-line-and-the-vertex-visited-before-it-did-too] (len(r.edges[old(j)*2]) != old(len(r.edges[j*2])) || len(r.edges[old(j)*2+1]) != old(len(r.edges[j*2+1]))) ==> (onEdgeLine(op2.pt, r.rect, old(j)) && bitOf(int(edgeSet1), old(j)) == 1)
 //@   loop 0.1.0 step [edges-are-tried-in-order] j == old(j) + 1
+
+// tidyEdgePair (C06): two overlapping runs on one rectangle edge are re-linked pairwise - points are never moved, the
+// new links are consistent in both directions, and when two rings are re-joined the absorbed ring's result slot is
+// emptied before its nodes take over the survivor's index
+//@ func RectClip64.tidyEdgePair
+//@   props C06 C03
+//@   nosafety
+//@   assumes forallp(q, OutPt2, q.next != nil && q.prev != nil)
+//@   loop 0 step [points-are-never-moved] forallp(q, OutPt2, q.pt == old(q.pt))
+//@   assert after p2a.next#0 [clockwise-runs-are-crossed-over-consistently] p1.next == p2 && p2.prev == p1 && p1a.prev == p2a && p2a.next == p1a
+//@   assert after p2a.prev#0 [counter-clockwise-runs-are-crossed-over-consistently] p1.prev == p2 && p2.next == p1 && p1a.next == p2a && p2a.prev == p1a
+//@   assert after call:setNewOwner#0 [a-re-joined-ring-gives-up-its-slot-and-takes-the-survivors-index] r.results[old(p2.ownerIdx)] == nil && p2.ownerIdx == old(p1.ownerIdx)
+//@   assert after call:setNewOwner#1 [a-split-off-ring-gets-a-new-slot-of-its-own] p1a.ownerIdx == len(r.results) - 1 && r.results[len(r.results)-1] == p1a
